@@ -41,8 +41,9 @@ LEVEL_TEXT = (
     "mirror_partial; the exact statement is refuted for Python's == by mirror_witness = finding F1), the keep/remove "
     "table incl. the retries=/timeout= budget. Gate: safety for every interleaving with any number of "
     "spawn_missing_watchers batches (gate_safe for the start-up batch, pass_safe/detach_safe for every kind spawned "
-    "so far), possibility of opening from every reachable state (gate_can_open: no deadlock; it assumes each started "
-    "index_resource can return — finding F3 is a real way it does not), three broken variants refuted. Tied to the "
+    "so far); beyond the property (liveness is not part of C17): gate_can_open_partial (the gate can open from every "
+    "reachable state in which no indexing cycle ended without drop_toggle) with gate_stuck_witness for the raising "
+    "path (an observation, not a finding: proposals/fix-C17F3); three broken variants refuted. Tied to the "
     "code by differential runs of the real process_resource_event/indexers (D) and by trace acceptance of real "
     "watcher/worker/ToggleSet start-ups incl. a second batch under virtual time (A). The retry/exclusion half of the "
     "Lean reference shares exhausted/lookahead/awake with the model (definitional there); it is checked independently "
@@ -72,7 +73,8 @@ THEOREMS = [
     ("Kopf.Props.C17", "Kopf.C17.Gate.pass_safe"),
     ("Kopf.Props.C17", "Kopf.C17.Gate.detach_safe"),
     ("Kopf.Props.C17", "Kopf.C17.Gate.ungated_only_after_ready"),
-    ("Kopf.Props.C17", "Kopf.C17.Gate.gate_can_open"),
+    ("Kopf.Props.C17", "Kopf.C17.Gate.gate_can_open_partial"),
+    ("Kopf.Props.C17", "Kopf.C17.Gate.gate_stuck_witness"),
     ("Kopf.Props.C17", "Kopf.C17.Gate.noBlocker_witness"),
     ("Kopf.Props.C17", "Kopf.C17.Gate.noKindToggle_witness"),
     ("Kopf.Props.C17", "Kopf.C17.Gate.dropBeforeIndex_witness"),
@@ -100,9 +102,10 @@ ASSUMPTIONS = [
     "the exclusion/retry table of the Lean reference (awake, exhausted, lookahead) is shared with the model: mirror_* are "
     "decomposition theorems for the index bookkeeping and definitional for that table; a misreading of awakened/look-ahead "
     "would be caught by the D tie (real memory incl. retries/delayed/failure/started) and by the Python oracle only",
-    "gate: a watcher that died and is respawned under the same kind (kopf 9ef1bcb) is not modelled; gate_can_open is a "
-    "possibility statement (no fairness), it assumes a started index_resource can return and a listing can finish "
-    "(C17-F3: a raising/throttled indexing cycle leaves the toggle and the gate never opens)",
+    "gate: a watcher that died and is respawned under the same kind (kopf 9ef1bcb) is not modelled; whether the gate "
+    "ever opens is liveness and NOT checked by the oracle (C17 is safety): gate_can_open_partial is a possibility "
+    "statement under the guard that no indexing cycle failed; the failing path (indexFail label, leaked toggle) is "
+    "modelled, tied (corpus F3_gate_toggle_leak + 6% of generated start-ups) and shown stuck by gate_stuck_witness",
     "daemons/timers/change handlers are behind the same single wait_for(True) as @kopf.on.event handlers, which are what the gate runs observe",
 ]
 
@@ -110,7 +113,6 @@ KINDS = ["kexa", "kexb", "kexc"]
 LATE_KIND = "kexd"      # a kind discovered after the start-up (second spawn_missing_watchers batch)
 GROUP, VERSION = "kopf.dev", "v1"
 F1_SIG = {"site": "Store._replace", "shape": "a new value that == the stored one (True/1/0/False) is not stored"}
-F3_SIG = {"site": "process_resource_event", "shape": "an exception before the per-object toggle is dropped leaves the gate closed for everybody"}
 F2_SIG = {"site": "OperatorIndexer.replace", "shape": "a non-dict Mapping result is unpacked by key (docs: strictly dict)"}
 
 
@@ -560,7 +562,11 @@ def gen_gate_case(rng: random.Random) -> dict:
         streams[LATE_KIND] = items
         late = {"delay": rng.choice([1 / 64, 1 / 4, 1.0, 3.0]),
                 "kinds": [{"name": LATE_KIND, "indexed": rng.random() < 0.8}]}
+    filter_raises = []
+    if rng.random() < 0.06 and index_delay:
+        filter_raises = [rng.choice(sorted(index_delay))]      # the when= filter raises for this object
     return {"kind": "gate", "kinds": kinds, "late": late, "streams": streams, "index_delay": index_delay,
+            "filter_raises": filter_raises,
             "toggle_delay": [rng.choice([0, 0, 0, 1 / 64, 1 / 16, 1 / 4]) for _ in range(len(kinds) + 1)],
             "obj_toggle_delay": rng.choice([0, 0, 0, 1 / 64, 1 / 16, 1 / 4]),
             "idle_timeout": rng.choice([5.0, 5.0, 0.25, 1 / 16]),
@@ -767,6 +773,11 @@ async def run_gate_case(case: dict) -> dict:
             # ungated workers skip the wait; cycles without a matching handler still reach the handlers' stage
             mine = [l for l in labels[started:] if len(l) > 2 and l[1] == k and l[2] == u]
             names = [l[0] for l in mine]
+            if "index" not in names and sys.exc_info()[0] is not asyncio.CancelledError:
+                # the cycle ended without reaching drop_toggle: index_resource (or something before
+                # it) raised and the throttler swallowed it, or the throttler skipped the cycle
+                labels.append(["indexFail", k, u, gate.snap()])
+                idle.add((k, u))
             if ("pass" in names or "skip" in names) and "handle" not in names:
                 labels.append(["handle", k, u, gate.snap()])   # process_resource_causes ran (no handler matched/left)
                 names.append("handle")
@@ -853,12 +864,8 @@ def oracle_gate(case: dict, obs: dict) -> list[tuple[str, dict, dict]]:
                 break
     if obs["crashed"]:
         fails.append((f"watcher task crashed: {obs['crashed'][:2]}", {}, {"site": "queueing.watcher", "shape": "crash"}))
-    if delivered and not started:
-        sig = {"site": "operator_indexed gate", "shape": "never opens"}
-        if case.get("filter_raises") and obs["final"]["n"] == len(case["filter_raises"]):
-            sig = F3_SIG         # exactly the toggles of the objects whose indexing cycle raised are left
-        fails.append(("events were delivered, every listing finished, but no handler ever started (the gate never opened)",
-                      {"final": obs["final"]}, sig))
+    # NB: whether the gate ever opens is liveness, not part of C17 (pure safety): it is only counted
+    # (`gate.opened`), never reported. corpus/C17/F3_gate_toggle_leak.json is a tie scenario for it.
     return fails
 
 
@@ -987,6 +994,7 @@ def summarise_gate(results: list[dict], source: str, sm: dict | None = None, wit
         _count(sm, "gate.arrival_while_blocker_held", under_blocker)
         _count(sm, "gate.closed_again_after_opening", reclosed)
         _count(sm, "gate.late_batch", bool(case.get("late")))
+        _count(sm, "gate.failed_indexing_cycle", "indexFail" in names)
         _count(sm, "gate.source", source)
         sm["traces"] += 1
         for what, detail, sig in r["fails"]:
